@@ -9,14 +9,16 @@ mkdir -p $S
 trap 'git -C /repo worktree remove --force $S/repo 2>/dev/null; rm -rf $S' EXIT
 git -C /repo worktree add -q --detach $S/repo HEAD
 cd $S/repo
-R0=0; PYTHONDONTWRITEBYTECODE=1 PYTHONPATH=$S/repo /venv/bin/python $D/demo.py >$S/demo0.txt 2>&1 || R0=$?
+mkdir -p $S/repo/out/X && cp $D/demo.py $S/repo/out/X/demo.py     # demos locate the library relative to themselves (../..) or via BU_ROOT
+R0=0; BU_ROOT=$S/repo PYTHONDONTWRITEBYTECODE=1 PYTHONPATH=$S/repo /venv/bin/python $S/repo/out/X/demo.py >$S/demo0.txt 2>&1 || R0=$?
 git apply "$D/patch.diff"
-R1=0; PYTHONDONTWRITEBYTECODE=1 PYTHONPATH=$S/repo /venv/bin/python $D/demo.py >$S/demo1.txt 2>&1 || R1=$?
+R1=0; BU_ROOT=$S/repo PYTHONDONTWRITEBYTECODE=1 PYTHONPATH=$S/repo /venv/bin/python $S/repo/out/X/demo.py >$S/demo1.txt 2>&1 || R1=$?
 T=skipped
 if [ -z "$SKIPTESTS" ]; then
   if /venv/bin/python -m pytest -q -p no:cacheprovider -x >$S/pytest.txt 2>&1; then T=pass; else T=FAIL; fi
 fi
 echo "demo without change: exit $R0; demo with change: exit $R1 ($(tail -1 $S/demo1.txt | cut -c1-160)); test suite with change: $T"
+rm -rf $S/repo/out
 rsync -a --exclude .git --exclude evidence /verif/ $S/verif/
 for p in "$@"; do
   (cd $S/verif && BU_REPO=$S/repo ./check $p ${TIER:-quick} > $S/out.txt 2>&1) || true
